@@ -9,6 +9,7 @@ CONSTANTS
   InitStores <- ValStores
   PublishAfterUnlock = FALSE
   CreatedRevalidated = TRUE
+  DeleteHoldsLock = TRUE
   Equiv = "val"
   SubSer = FALSE
   MayCancel = FALSE
